@@ -1814,6 +1814,16 @@ package rtcp
 //@   ensures input: inputUnchanged
 //@   ensures repeatable: repeatable
 
+//@ func lemmaCompound(c CompoundPacket) (verr error, name string, cerr error, merr error, uerr error)
+//@   lemma
+//@   trusted
+//@   bounded[C11] genCompound
+//@   ensures validate: (verr == nil) <==> specCompoundOK(c)
+//@   ensures cname: verr == nil ==> cerr == nil && name == specCompoundCNAME(c)
+//@   ensures marshal: (merr == nil) <==> (verr == nil)
+//@   ensures unmarshal: merr == nil ==> uerr == nil
+//@   ensures dest: verr == nil ==> seqEq(c.DestinationSSRC(), c[0].DestinationSSRC())
+
 //@ func lemmaReencodeSR(raw []byte) (p SenderReport, q SenderReport, err error, err2 error, err3 error)
 //@   lemma
 //@   requires frame: len(raw) <= 4*65536
